@@ -164,3 +164,51 @@ def path_features(t, p):
         if is_check_call(prog, mod, e.node):
             f['check'].append((i, e))
     return f
+
+
+def decision_region(prog):
+    """Functions a decision runs through: enforce and what it reaches,
+    without the load / rule-checking side and without constructors."""
+    enf = prog.func(POLICY + '.Enforcer.enforce')
+    stop = (POLICY + '.Enforcer.load_rules', POLICY + '.Enforcer.check_rules')
+    return {q: f for q, f in prog.region(enf, stop=stop).items()
+            if f.name not in ('__init__', '__str__', '__repr__')
+            and f.module.name in (POLICY, CHECKS)}
+
+
+def decision_side_effects(prog):
+    """[(function, effect, why)] writes of the decision region that outlive
+    the call: enforcer / check-object state, and in-place changes of what a
+    function was handed (parameters), except the documented mirror of
+    system_scope into the credentials mapping."""
+    import ast as _ast
+    from .effects import effects_of
+    out = []
+    for q, f in sorted(decision_region(prog).items()):
+        params = set(f.params)
+        # a parameter rebound at the top level of the body is a local copy
+        for st in f.node.body:
+            if isinstance(st, _ast.Assign):
+                for t in st.targets:
+                    if isinstance(t, _ast.Name):
+                        params.discard(t.id)
+        for e in effects_of(f):
+            root = e.path.split('.')[0].split('[')[0]
+            if root == 'self' and e.path != 'self':
+                out.append((f, e, 'writes %s state (%s)' % (
+                    'enforcer' if f.cls is not None and f.cls.qual ==
+                    POLICY + '.Enforcer' else 'object', e.path)))
+            elif root in params and root != 'self' and e.kind != 'store':
+                tg = e.node.targets[0] if isinstance(
+                    e.node, _ast.Assign) else None
+                if e.kind == 'substore' and e.path == root and isinstance(
+                        tg, _ast.Subscript) and isinstance(
+                            tg.slice, _ast.Constant) and \
+                        tg.slice.value == 'system' and 'system_scope' in \
+                        _ast.unparse(e.node.value):
+                    continue            # creds['system'] mirror (C08.MIRROR)
+                out.append((f, e, 'changes its argument `%s` in place (%s)'
+                            % (root, e.kind)))
+            elif e.kind == 'global':
+                out.append((f, e, 'rebinds the module-level `%s`' % e.path))
+    return out
